@@ -19,7 +19,7 @@ RULE = ("(transform) every parameter set with n <= 3 markets over volatility {0,
         "correlation changes and shocks on a real Fundamentals object driving real Markets, generation chunk 3 and 100; "
         "distinct = parameter sets / canonical history states")
 WIT = ["correlation_given_in_reverse_order", "zero_noise_path", "basis_probe", "affine_probe", "correlated_pair", "zero_vol_market_ignores_z", "hist_shock",
-       "hist_param_change", "hist_advance_across_chunk", "hist_past_values_compared", "hist_continuation_checked", "hist_volatility_changed_between_nonzero_values"]
+       "hist_param_change", "hist_advance_across_chunk", "hist_past_values_compared", "hist_continuation_checked", "hist_volatility_changed_between_nonzero_values", "hist_joint_noise_vector_two_volatile_markets", "late_start_cases"]
 VOL = [0, 0.125, 0.25, 0.5]
 DR = [-2.0 ** -6, 0, 2.0 ** -7]
 CO = [-0.5, -0.25, 0, 0.5, 0.75]
@@ -70,6 +70,36 @@ def transform_cases(nmax):
                         if corr:
                             # the same correlations configured with the later-registered market first
                             yield (vols, drifts, corr, init[:nm], True)
+
+
+def late_start_cases():
+    for starts in itertools.product((0, 2, 5), repeat=2):
+        if 0 not in starts:
+            continue  # a generator none of whose markets starts at 0 is outside the property (and outside what the runner builds)
+        for vols in ((0.0, 0.0), (0.25, 0.0), (0.0, 0.25), (0.25, 0.25)):
+            for chunk in (3, 100):
+                yield (starts, vols, chunk)
+
+
+def late_start_fn(case, wit):
+    """markets registered with a later start: the initial value holds up to the start, the walk begins there"""
+    starts, vols, chunk = case
+    drifts = (2.0 ** -7, -2.0 ** -6)
+    f = Fundamentals(prng=random.Random(0))
+    f._generate_chunk_size = chunk
+    f._np_prng = Stub(lambda size, n: np.zeros(size))
+    for i in range(2):
+        f.add_market(i, 100.0 + 50 * i, drifts[i], vols[i], start_at=starts[i])
+    T = 9
+    for i in range(2):
+        for t in list(range(T + 1)) + [T, 3, 0]:
+            got = f.get_fundamental_price(i, t)
+            want = (100.0 + 50 * i) * math.exp(drifts[i] * max(0, t - starts[i]))
+            if abs(got - want) > 1e-12 * want * max(1, t) or not got > 0:
+                raise Violation("C12.late_start", "a market registered with a later start does not hold its initial value until the start and follow initial x exp(drift x (t - start)) afterwards (zero noise)",
+                                "starts %s vols %s chunk %s: market %d t=%d got %r expected %r" % (starts, vols, chunk, i, t, got, want))
+    wit.inc("late_start_cases")
+    return (starts, vols)
 
 
 def transform_fn(case, wit):
@@ -244,19 +274,21 @@ class HWorld:
         for a in f._np_prng.calls[-3:]:
             if a.shape[0] == len(vol_idx):
                 cols += [a[:, c] for c in range(a.shape[1])]
-        for i in range(3):
-            for s in range(t, horizon):
-                r = math.log(series[i][s + 1] / series[i][s]) - drifts[i]
-                if vols[i] == 0.0:
-                    if abs(r) > 1e-12:
-                        raise Violation("C12.continuation", "later values do not continue from the value at t with the current drift (zero-volatility market)",
-                                        "after %r at t=%d: market %d step %d->%d log-return %r, drift %r" % (op, t, i, s, s + 1, r + drifts[i], drifts[i]))
-                else:
-                    k = vol_idx.index(i)
-                    if not any(abs(r - float(Lm[k] @ z)) < 1e-9 for z in cols):
-                        raise Violation("C12.continuation_noise", "a later log-return is not drift + (Cholesky factor of the current covariance) x a noise vector that was drawn",
-                                        "after %r at t=%d: market %d step %d->%d" % (op, t, i, s, s + 1))
-                self.wit.inc("hist_continuation_checked")
+        for s in range(t, horizon):
+            rs = [math.log(series[i][s + 1] / series[i][s]) - drifts[i] for i in range(3)]
+            for i in range(3):
+                if vols[i] == 0.0 and abs(rs[i]) > 1e-12:
+                    raise Violation("C12.continuation", "later values do not continue from the value at t with the current drift (zero-volatility market)",
+                                    "after %r at t=%d: market %d step %d->%d log-return %r, drift %r" % (op, t, i, s, s + 1, rs[i] + drifts[i], drifts[i]))
+            if vol_idx:
+                # ONE drawn noise vector must explain the returns of all volatile markets of this step together
+                rv = np.array([rs[i] for i in vol_idx])
+                if not any(np.abs(rv - Lm @ z).max() < 1e-9 for z in cols):
+                    raise Violation("C12.continuation_noise", "the log-returns of one step are not drift + (Cholesky factor of the current covariance) x one noise vector that was drawn (jointly for all volatile markets)",
+                                    "after %r at t=%d: step %d->%d, volatile markets %s" % (op, t, s, s + 1, vol_idx))
+                if len(vol_idx) >= 2:
+                    self.wit.inc("hist_joint_noise_vector_two_volatile_markets")
+            self.wit.inc("hist_continuation_checked")
 
     def canon(self):
         f = self.f
@@ -334,6 +366,7 @@ def history_search(res, chunk, depth, seed):
 def run(tier, seed):
     res = common.Result("C12", tier, seed)
     run_grid(res, "transform", list(transform_cases(3 if tier == "quick" else 3)), transform_fn, seed)
+    run_grid(res, "late_start", list(late_start_cases()), late_start_fn, seed)
     for chunk, dq, dt in ((3, 5, 7), (100, 4, 6)):
         history_search(res, chunk, dq if tier == "quick" else dt, seed)
     res.coverage["exhaustive"] = True
@@ -345,6 +378,16 @@ def run(tier, seed):
 
 
 def replay(payload):
+    if payload.get("grid") == "late_start":
+        c = payload["case"]
+        try:
+            late_start_fn((tuple(c[0]), tuple(c[1]), c[2]), Counter())
+        except Violation as v:
+            print("  ==> VIOLATION %s: %s" % (v.monitor, v.msg))
+            print("VIOLATION property=C12 replay=(this file)")
+            return 1
+        print("replay: no violation on this tree")
+        return 0
     if payload.get("grid") == "history":
         w = HWorld(payload["chunk"])
         try:
